@@ -621,4 +621,4 @@ func (i *Intermediate) Finish() *protoCommonV1.TaskResponse {
 	return rs.(*protoCommonV1.TaskResponse)
 }
 
-var _ = encoding.JSONMarshal
+func jsonUnmarshal(b []byte, v any) error { return encoding.JSONUnmarshal(b, v) }
